@@ -36,4 +36,46 @@ func init() {
 			"pat": map[string]any{"pfx": s2b(p.Prefix()), "tp": s2b(p.Target()), "rec": p.Recursive()},
 			"str": s2b(p.String()), "m": string(m)}, nil
 	})
+	// patterns.parse: ParsePatternsOrMatchAll on the argument list; "m" = for every label of the universe, does any of the
+	// returned patterns match (what Selector.nodeMatchesPatterns computes)
+	register("patterns.parse", func(req map[string]any) (any, error) {
+		ps, err := label.ParsePatternsOrMatchAll(b2s(req["cur"]), strList(req["ss"]))
+		if err != nil {
+			return map[string]any{"ok": false}, nil
+		}
+		uni, _ := req["uni"].(map[string]any)
+		m := []byte{}
+		for _, pk := range strList(uni["pkgs"]) {
+			for _, nm := range strList(uni["names"]) {
+				c := byte('0')
+				for _, p := range ps {
+					if p.Matches(label.TargetLabel{Package: pk, Name: nm}) {
+						c = '1'
+					}
+				}
+				m = append(m, c)
+			}
+		}
+		pats := []any{}
+		for _, p := range ps {
+			pats = append(pats, map[string]any{"pfx": s2b(p.Prefix()), "tp": s2b(p.Target()), "rec": p.Recursive()})
+		}
+		return map[string]any{"ok": true, "pats": pats, "str": s2b(label.PatternSetToString(ps)), "m": string(m)}, nil
+	})
+	// pattern.fromlabel: TargetPatternFromLabel (used by `grog run`)
+	register("pattern.fromlabel", func(req map[string]any) (any, error) {
+		p := label.TargetPatternFromLabel(label.TargetLabel{Package: b2s(req["pkg"]), Name: b2s(req["name"])})
+		uni, _ := req["uni"].(map[string]any)
+		m := []byte{}
+		for _, pk := range strList(uni["pkgs"]) {
+			for _, nm := range strList(uni["names"]) {
+				if p.Matches(label.TargetLabel{Package: pk, Name: nm}) {
+					m = append(m, '1')
+				} else {
+					m = append(m, '0')
+				}
+			}
+		}
+		return map[string]any{"pat": map[string]any{"pfx": s2b(p.Prefix()), "tp": s2b(p.Target()), "rec": p.Recursive()}, "str": s2b(p.String()), "m": string(m)}, nil
+	})
 }
